@@ -693,3 +693,73 @@ def replay_h_slice_count(n0, n1, n2, si):
         return False, "agrees"
     finally:
         shutil.rmtree(d, ignore_errors=True)
+
+
+# ------------------------------------------------------------ the caller's column list is an input, not state ---
+class _ColsHandle(Handle):
+    """handle with an index column `i` known from the pandas metadata; records the column list of each allocation"""
+    _get_index = ParquetFile._get_index
+
+    def __init__(self, rows):
+        Handle.__init__(self, rows)
+        self.columns = ["a", "i"]
+        self.pandas_metadata = {"index_columns": ["i"]}
+        self.alloc_cols = []
+
+    def pre_allocate(self, size, columns, categories, index, dtypes=None):
+        self.alloc_cols.append((list(columns), index))
+        return Handle.pre_allocate(self, size, columns, categories, index, dtypes)
+
+
+def _index_arg(k):
+    return [None, "i", False][k]
+
+
+def h_columns_arg(n0: int, n1: int, sel_i: bool, k1: int, k2: int) -> bool:
+    """
+    pre: 0 <= n0 <= 1000 and 0 <= n1 <= 1000 and 0 <= k1 <= 2 and 0 <= k2 <= 2
+    post: __return__
+    """
+    # two reads with ONE list object naming the data columns, each with its own index choice (metadata default, the
+    # column i, or none): every read allocates exactly the named columns plus its own index columns, and the caller's
+    # list is left as it was
+    h = _ColsHandle([n0, n1])
+    cols = ["a", "i"] if sel_i else ["a"]
+    given = list(cols)
+    for k in (k1, k2):
+        h.to_pandas(columns=cols, index=_index_arg(k))
+        if cols != given:
+            return False
+    for (got, index), k in zip(h.alloc_cols, (k1, k2)):
+        idx = [] if _index_arg(k) is False else ["i"]
+        if got != given + [c for c in idx if c not in given]:
+            return False
+        if list(index or []) != idx:
+            return False
+    return len(h.alloc_cols) == 2
+
+
+def replay_h_columns_arg(n0, n1, sel_i, k1, k2):
+    import shutil, tempfile
+    import pandas as pd
+    import fastparquet
+    d = tempfile.mkdtemp(prefix="c06-")
+    try:
+        fn = os.path.join(d, "t.parq")
+        df = pd.DataFrame({"a": [1.0, 2.0, 3.0], "i": pd.to_datetime(["2020-01-01", "2020-01-02", "2020-01-03"])})
+        fastparquet.write(fn, df.set_index("i"), row_group_offsets=[0, 2])
+        pf = fastparquet.ParquetFile(fn)
+        cols = ["a", "i"] if sel_i else ["a"]
+        given = list(cols)
+        for k in (k1, k2):
+            out = pf.to_pandas(columns=cols, index=_index_arg(k))
+            idx = [] if _index_arg(k) is False else ["i"]
+            want = [c for c in given if c not in idx]
+            if cols != given:
+                return True, "to_pandas(columns=%r, index=%r) changed the caller's list to %r" % (given, _index_arg(k), cols)
+            if list(out.columns) != want:
+                return True, "to_pandas(columns=%r, index=%r) returned columns %r" % (given, _index_arg(k),
+                                                                                     list(out.columns))
+        return False, "columns as requested"
+    finally:
+        shutil.rmtree(d, ignore_errors=True)
